@@ -30,6 +30,15 @@ UNFOLD = ['ro_lower_hysteresis', 'ro_delta_strain', 'ro_tangential_modulus', 'ro
           'tss_true_strain', 'tss_true_stress', 'tss_true_fracture_strain', 'tss_true_fracture_stress']
 
 
+
+def tech_strain_sample(rng):
+    """technical strains over their practical magnitudes: half of the samples log-uniform in 1e-7 .. 1 (either sign, compression down to
+    -0.5), half uniform in (-0.5, 2): small strains are the common case and a uniform draw would reach |e| < 1e-3 once in a thousand"""
+    if rng.random() < 0.5:
+        e = rng.choice([-1.0, 1.0]) * 10 ** rng.uniform(-7, 0)
+        return max(e, -0.5)
+    return rng.uniform(-0.5, 2.0)
+
 def materials(rng, k):
     out = []
     for _ in range(k):
@@ -158,9 +167,9 @@ def impl_relations(res, rng, n_mat, n_pts):
         if not close(h3.G, E / (2 * (1 + nu)), 1e-14) or not close(h3.K, E / (3 * (1 - 2 * nu)), 1e-14):
             bad('G/K do not follow from E and nu', E=E, nu=nu, G=float(h3.G), K=float(h3.K))
         # true stress/strain
-        e = rng.uniform(-0.5, 2.0)
+        e = tech_strain_sample(rng)
         sg = rng.uniform(-1e3, 1e3)
-        if not close(math.exp(tss.true_strain(e)) - 1, e, 1e-12, 1e-15):
+        if not close(math.expm1(tss.true_strain(e)), e, 1e-12, 1e-15):
             bad('true_strain is not ln(1+e)', tech_strain=e)
         if not close(tss.true_stress(sg, e) / (1 + e), sg, 1e-13):
             bad('true_stress is not s(1+e)', tech_stress=sg, tech_strain=e)
@@ -220,7 +229,7 @@ def certificates(res, rng, n_mat, n_pts):
         add(cert.near_tuple(A('h3_strain', E, nu, *w), [float(x) for x in h3.strain(*w)], atol=1e-16), ('h3.strain', E, nu, w))
         add(cert.near(A('hc_G', E, nu), float(h3.G)), ('G', E, nu))
         add(cert.near(A('hc_K', E, nu), float(h3.K)), ('K', E, nu))
-        e = rng.uniform(-0.5, 2.0)
+        e = tech_strain_sample(rng)
         sg = rng.uniform(-1e3, 1e3)
         Z = rng.uniform(0.01, 0.95)
         add(cert.near(A('tss_true_strain', e), float(tss.true_strain(e))), ('true_strain', e))
